@@ -27,6 +27,8 @@ var c14IdentOpt = regexp.MustCompile(`\.\?+(\.|\[|$)`)
 // leading zeros of an integer inside brackets carry no meaning; a printer may drop them
 var c14LeadingZeros = regexp.MustCompile(`([\[:]-?)0+([0-9])`)
 
+var c14Decimal = regexp.MustCompile(`^-?[0-9]+$`)
+
 var c14BracketGrammar = regexp.MustCompile(`^(|-?[0-9]+|-?[0-9]*:-?[0-9]*)$`)
 
 func c14Normalise(s string) string {
@@ -100,7 +102,7 @@ func c14SelectorSub() *engine.Sub {
 	return &engine.Sub{
 		Name:   "selector-text",
 		Repeat: true,
-		Rule:   `every string over {. [ ] " ? : - 0 1 a _ \ * space} up to the length bound offered to selector.Parse, plus every bracket content of up to 6 symbols over {0 1 - :} with two or more colons (in .[...] and .a[...]?), plus every pair of slices in a row with bounds over {none, 0, 1, 2, -1}, plus 12 quoted field names made of bytes outside ASCII (not UTF-8, ending inside a character, U+FFFD, composed / decomposed spellings) in 6 selector shapes, and 19 integers at and beyond 2^31, 2^32, 2^53, 2^63, 2^64, 2^65 and 2^128 (also n + 2^64 for small n) as index and slice bounds in 9 shapes; for every accepted string: printing reproduces the text (up to '?' after an identity dot), the printed text parses to the same segments with identical Select results on 33 values, every segment re-parsed alone has the same meaning, and every unquoted bracket is empty, one integer or lo:hi with one colon (an independent three-line grammar); non-trivial = accepted strings`,
+		Rule:   `every string over {. [ ] " ? : - 0 1 a _ \ * space} up to the length bound offered to selector.Parse, plus every bracket content of up to 6 symbols over {0 1 - :} with two or more colons (in .[...] and .a[...]?), plus every integer of up to 4 digits over {0 1 7 8 9} with and without sign as index and slice bound (an accepted integer means what its digits say in base ten), plus every pair of slices in a row with bounds over {none, 0, 1, 2, -1}, plus 12 quoted field names made of bytes outside ASCII (not UTF-8, ending inside a character, U+FFFD, composed / decomposed spellings) in 6 selector shapes, and 19 integers at and beyond 2^31, 2^32, 2^53, 2^63, 2^64, 2^65 and 2^128 (also n + 2^64 for small n) as index and slice bounds in 9 shapes; for every accepted string: printing reproduces the text (up to '?' after an identity dot), the printed text parses to the same segments with identical Select results on 33 values, every segment re-parsed alone has the same meaning, and every unquoted bracket is empty, one integer or lo:hi with one colon (an independent three-line grammar); non-trivial = accepted strings`,
 		Bound: func(t string) string {
 			return fmt.Sprintf("all strings of length <=%d over 14 symbols", tierN(t, 5, 8))
 		},
@@ -133,6 +135,18 @@ func c14SelectorSub() *engine.Sub {
 					return true
 				}
 				return emit(&c14SelCase{S: ".[" + in + "]"}) && emit(&c14SelCase{S: ".a[" + in + "]?"})
+			})
+			// integers of up to 4 digits over {0 1 7 8 9}, with and without a sign, as index and as slice bounds: digits are decimal
+			allStrings([]string{"0", "1", "7", "8", "9"}, 4, func(d string) bool {
+				if d == "" {
+					return true
+				}
+				for _, sg := range []string{"", "-"} {
+					if !emit(&c14SelCase{S: ".[" + sg + d + "]"}) || !emit(&c14SelCase{S: ".[" + sg + d + ":]"}) || !emit(&c14SelCase{S: ".a[:" + sg + d + "]?"}) {
+						return false
+					}
+				}
+				return true
 			})
 			// two slices in a row, each bound absent or one of 0, 1, 2, -1: a bound left open is open, whatever the slice before it said
 			bs := []string{"", "0", "1", "2", "-1"}
@@ -241,6 +255,22 @@ func c14SelectorSub() *engine.Sub {
 				}
 				// a bracket that is not a quoted name holds nothing, one integer, or two optional integers around ONE colon
 				if b := strings.TrimSuffix(sg.String(), "?"); strings.HasPrefix(b, "[") && strings.HasSuffix(b, "]") && !strings.HasPrefix(b, `["`) {
+					// ... and the integers mean what their digits say in base ten
+					if in := b[1 : len(b)-1]; c14Decimal.MatchString(in) {
+						if want, err := strconv.ParseInt(in, 10, 64); err == nil && int64(sg.Index()) != want {
+							ctx.Failf(cs, "selector/index-not-taken-at-face-value", "Parse(%q) accepted the index segment %q and reads it as %d; its digits say %d", cs.S, sg.String(), sg.Index(), want)
+							return
+						}
+					} else if parts := strings.Split(in, ":"); len(parts) == 2 && len(sg.Slice()) == 2 {
+						for k, pt := range parts {
+							if c14Decimal.MatchString(pt) {
+								if want, err := strconv.ParseInt(pt, 10, 64); err == nil && sg.Slice()[k] != want {
+									ctx.Failf(cs, "selector/bound-not-taken-at-face-value", "Parse(%q) accepted the slice segment %q and reads bound %d as %d; its digits say %d", cs.S, sg.String(), k, sg.Slice()[k], want)
+									return
+								}
+							}
+						}
+					}
 					if in := b[1 : len(b)-1]; !c14BracketGrammar.MatchString(in) {
 						ctx.Failf(cs, "selector/accepted-outside-grammar", "Parse(%q) accepted the bracket segment %q, which is neither empty, an integer, nor lo:hi - it is read as %+v, so part of it means nothing", cs.S, sg.String(), viewOf(selector.Selector{sg}))
 						return
